@@ -37,7 +37,7 @@ type spec struct {
 }
 
 var writeKinds = []string{"insert", "insert", "update", "delete", "bulk", "bulk-big", "create-table", "drop-table", "create-index", "drop-index", "alter", "vacuum", "incr-vacuum", "delete-all", "update-grow", "vacuum-pagesize"}
-var readKinds = []string{"select", "select", "indexed", "rowid", "columns", "low-scan", "low-tables", "low-schema", "low-all", "repeat", "pk", "prepared"}
+var readKinds = []string{"select", "select", "indexed", "rowid", "columns", "low-scan", "low-tables", "low-schema", "low-all", "repeat", "pk", "prepared", "select-in-lo-txn", "indexed-in-lo-txn", "low-all-in-hi-txn"}
 
 func TestC08History(t *testing.T) {
 	vt.Exec(t, vt.Check[spec]{
@@ -350,14 +350,26 @@ func run(r *vt.Run, t vt.TB, s spec) {
 			}
 
 		// ---------------- reads on the long-lived handles
-		case "select", "indexed", "rowid", "columns", "pk", "prepared":
+		case "select", "indexed", "rowid", "columns", "pk", "prepared", "select-in-lo-txn", "indexed-in-lo-txn":
 			if tm == nil {
 				continue
 			}
 			tmc := tm
 			kind := o.Kind
 			b := o.B
-			read := func() (string, bool) {
+			// ...-in-lo-txn: the read starts while the other long-lived handle
+			// of this process is inside a read transaction of its own
+			inLo := strings.HasSuffix(kind, "-in-lo-txn")
+			kind = strings.TrimSuffix(kind, "-in-lo-txn")
+			read := func() (out string, ok bool) {
+				if inLo {
+					if err := lo.RLock(); err != nil {
+						fail("lock-error", "RLock: %v", err)
+						return "", false
+					}
+					defer lo.RUnlock()
+					classes["read-while-sibling-handle-in-transaction"] = true
+				}
 				// (evaluated when the read runs: a repeated read may come after DDL)
 				cols := append([]string{}, tmc.cols...)
 				dropped := true
@@ -484,14 +496,17 @@ func run(r *vt.Run, t vt.TB, s spec) {
 				}
 				afterRead("hi")
 			}
-		case "low-scan", "low-tables", "low-schema", "low-all":
-			if err := lo.RLock(); err != nil {
-				fail("lock-error", "RLock: %v", err)
-				return
-			}
-			ok := func() bool {
+		case "low-scan", "low-tables", "low-schema", "low-all", "low-all-in-hi-txn":
+			body := func() bool {
+				if err := lo.RLock(); err != nil {
+					fail("lock-error", "RLock: %v", err)
+					return false
+				}
 				defer lo.RUnlock()
 				kinds := []string{o.Kind}
+				if o.Kind == "low-all-in-hi-txn" {
+					kinds = []string{"low-schema", "low-scan", "low-tables"}
+				}
 				if o.Kind == "low-all" {
 					// several reads inside one read transaction
 					kinds = []string{"low-schema", "low-scan", "low-tables", "low-scan"}
@@ -565,7 +580,21 @@ func run(r *vt.Run, t vt.TB, s spec) {
 					}
 				}
 				return true
-			}()
+			}
+			ok, ran := true, false
+			if o.Kind == "low-all-in-hi-txn" && tm != nil {
+				// the low-level handle's transaction starts while the high-level
+				// handle of this process is inside a Select (in its row callback)
+				hi.SelectDone(tm.name, func(sqlittle.Row) bool {
+					ran = true
+					classes["read-while-sibling-handle-in-transaction"] = true
+					ok = body()
+					return true
+				}, tm.cols[0])
+			}
+			if !ran {
+				ok = body()
+			}
 			if !ok {
 				return
 			}
